@@ -377,6 +377,10 @@ pub fn duplex(cx: &mut Ctx, work: &std::path::Path) {
 		plans.push((ver, plan));
 	}
 	let t_all = Instant::now();
+	let chan = std::thread::spawn(|| {
+		global::set_local_chain_type(ChainTypes::AutomatedTesting);
+		run_channel(1000)
+	});
 	let handles: Vec<_> = plans
 		.iter()
 		.enumerate()
@@ -389,6 +393,8 @@ pub fn duplex(cx: &mut Ctx, work: &std::path::Path) {
 		})
 		.collect();
 	let results: Vec<Option<DuplexRes>> = handles.into_iter().map(|h| h.join().ok()).collect();
+	let chan_res = chan.join().ok().flatten();
+	emit_channel(cx, chan_res);
 	for (i, (ver, plan)) in plans.iter().enumerate() {
 		let r = match &results[i] {
 			Some(r) => r,
@@ -822,6 +828,155 @@ pub fn headers_short(cx: &mut Ctx) {
 				}
 				emit_run(cx, ver, &frags, &r, false);
 			}
+		}
+	}
+}
+
+// ---------------------------------------------------------------------------------------------------
+// the length limit of every type byte: limit - 1 / limit / limit + 1, header only, versions 1..3
+
+pub fn limits_sweep(cx: &mut Ctx) {
+	// the property's table (p2p/src/msg.rs `max_msg_size`, times the 4x allowance; unknown types: the default)
+	let mbs: u64 = global::max_block_weight() / 21 * 708;
+	let mut limits: Vec<(u8, u64)> = vec![
+		(0, 0), (1, 128), (2, 88), (3, 16), (4, 16), (5, 4), (6, 4 + 19 * 256), (7, 1 + 32 * 20), (8, 365), (9, 2 + 365 * 512),
+		(10, 32), (11, mbs), (12, 32), (13, mbs / 10), (14, mbs), (15, mbs), (16, 40), (17, 64), (18, 64), (19, 32), (20, 32),
+		(21, 41), (22, 2 * mbs), (23, 41), (24, 2 * mbs), (25, 41), (26, 2 * mbs), (27, 41), (28, 2 * mbs),
+	];
+	for t in [29u8, 30, 77, 128, 200, 254, 255] {
+		limits.push((t, mbs));
+	}
+	for ver in [1u32, 2, 3] {
+		for &(t, lim) in &limits {
+			let l4 = 4 * lim;
+			for len in [l4.wrapping_sub(1), l4, l4 + 1] {
+				if len == u64::MAX {
+					continue;
+				}
+				let mut w = vec![73u8, 43, t];
+				w.extend_from_slice(&len.to_be_bytes());
+				// header only: whether it was accepted shows in how the read ends (nothing of a body follows)
+				let r = run_codec(ver, &[w.clone()], &[0]);
+				let over = len > l4;
+				cx.stat(if over { "limit sweep: limit + 1" } else if len == l4 { "limit sweep: at the limit" } else { "limit sweep: limit - 1" });
+				let ok = if over {
+					r.end == "Ser:TooLargeReadErr" && r.end_bytes == 11 && r.end_maxreq <= 65536 && r.events.is_empty()
+				} else {
+					r.end != "Ser:TooLargeReadErr" && r.end != "panic" && r.end_bytes == 11 + if t == 9 { 0 } else { 0 }
+				};
+				if !ok {
+					cx.fails += 1;
+					cx.out.raw(&format!(
+						"#ORACLE-FAIL C19 length limit of type byte {} (4 x {} = {}) at protocol version {}: a frame header announcing {} bytes ended with {} after {} bytes read, largest allocation request {} (events {:?})",
+						t, lim, l4, ver, len, r.end, r.end_bytes, r.end_maxreq, r.events
+					));
+				}
+				emit_run(cx, ver, &[w], &r, over);
+			}
+		}
+	}
+}
+
+// ---------------------------------------------------------------------------------------------------
+// the send channel at exactly SEND_CHANNEL_CAP queued messages
+
+pub struct ChanRes {
+	pub accepted: usize,
+	pub extra_ok: bool,
+	pub received: Vec<u64>,
+	pub extra_seen: bool,
+}
+
+/// the writer thread is parked on the tracker lock (a logical barrier: `write_message` starts with
+/// `tracker.sent_bytes.read()`), the channel is filled through `send_channel.try_send` until it reports
+/// Full, then ONE more message goes through `ConnHandle::send`; afterwards everything is drained
+pub fn run_channel(ver: u32) -> Option<ChanRes> {
+	let cap = grin_p2p::SEND_CHANNEL_CAP;
+	let listener = TcpListener::bind("127.0.0.1:0").ok()?;
+	let a_sock = TcpStream::connect(listener.local_addr().ok()?).ok()?;
+	let (mut b_sock, _) = listener.accept().ok()?;
+	let tr = Arc::new(Tracker::new());
+	let seen = Arc::new(Mutex::new(Seen2::default()));
+	let (ha, stop) = listen(a_sock, ProtocolVersion(ver), tr.clone(), Recorder2 { ver, work: std::path::PathBuf::new(), id: 0, scripted: false, seen }).ok()?;
+	let mk = |h: u64| Msg::new(Type::Ping, Ping { total_difficulty: Difficulty::from_num(7), height: h }, ProtocolVersion(ver)).unwrap();
+	let mut accepted = 0usize;
+	{
+		let _guard = tr.sent_bytes.write();
+		let deadline = Instant::now() + Duration::from_secs(60);
+		let mut next = mk(0);
+		loop {
+			match ha.send_channel.try_send(next) {
+				Ok(()) => {
+					accepted += 1;
+					if accepted > cap + 6 {
+						break;
+					}
+					next = mk(accepted as u64);
+				}
+				Err(std::sync::mpsc::TrySendError::Full(m)) => {
+					// the channel holds `cap` messages; one more is in the hands of the parked writer thread once
+					// it has taken it out - from then on nothing can move (no timing involved)
+					if accepted >= cap + 1 || Instant::now() > deadline {
+						break;
+					}
+					next = m;
+					std::thread::sleep(Duration::from_millis(2));
+				}
+				Err(_) => return None,
+			}
+		}
+		// the channel is full now: ConnHandle::send reports success and drops the message
+		let extra_ok = ha.send(mk(999_999)).is_ok();
+		drop(_guard);
+		// drain
+		let mut received = vec![];
+		let mut extra_seen = false;
+		let _ = b_sock.set_read_timeout(Some(Duration::from_secs(30)));
+		loop {
+			if received.len() >= accepted {
+				let _ = b_sock.set_read_timeout(Some(Duration::from_millis(700)));
+			}
+			let mut f = [0u8; 27];
+			if b_sock.read_exact(&mut f).is_err() {
+				break;
+			}
+			let mut hb = [0u8; 8];
+			hb.copy_from_slice(&f[19..27]);
+			let h = u64::from_be_bytes(hb);
+			if h == 999_999 {
+				extra_seen = true;
+			}
+			received.push(h);
+			if received.len() > accepted + 3 {
+				break;
+			}
+		}
+		stop.stop();
+		return Some(ChanRes { accepted, extra_ok, received, extra_seen });
+	}
+}
+
+pub fn emit_channel(cx: &mut Ctx, r: Option<ChanRes>) {
+	let cap = grin_p2p::SEND_CHANNEL_CAP;
+	match r {
+		None => {
+			cx.fails += 1;
+			cx.out.raw("#ORACLE-FAIL C19 send channel run could not be set up");
+		}
+		Some(r) => {
+			let in_order = r.received.iter().enumerate().all(|(i, h)| *h == i as u64);
+			if r.accepted != cap + 1 || !r.extra_ok || r.extra_seen || r.received.len() != r.accepted || !in_order {
+				cx.fails += 1;
+				cx.out.raw(&format!(
+					"#ORACLE-FAIL C19 send channel at its capacity (SEND_CHANNEL_CAP = {}): with the writer thread parked {} messages were accepted (expected {}), ConnHandle::send of one more returned ok: {}, after the drain {} messages arrived (in order: {}), the extra one among them: {}",
+					cap, r.accepted, cap + 1, r.extra_ok, r.received.len(), in_order, r.extra_seen
+				));
+			}
+			cx.stat("channel: filled to capacity with the writer parked");
+			cx.out.line(
+				"codec chan fill",
+				&format!("accepted:{};extra:{};received:{};inorder:{};extraseen:{}", r.accepted, if r.extra_ok { "ok" } else { "err" }, r.received.len(), if in_order { 1 } else { 0 }, if r.extra_seen { 1 } else { 0 }),
+			);
 		}
 	}
 }
